@@ -464,6 +464,32 @@ def lt (r s : Rep) : Bool := r.compare s < 0
 /-- `operator==(const char* s)`: `!strcmp(str(), s)` -/
 def eqCStr (r : Rep) (s : Bytes) : Bool := strcmp r.view s == 0
 
+/-- `operator[](int i)`: `str()[i]` — one read of the storage block (`none` = outside the block) -/
+def charAt (r : Rep) (i : Nat) : Option UInt8 := r.buf[i]?
+
+/-- `startsWith(char c)`: `str()[0] == c` -/
+def startsWithChar (r : Rep) (c : UInt8) : Option Bool := (r.charAt 0).map (· == c)
+
+/-- `endsWith(char c)`: `_len > 0 && str()[_len-1] == c` -/
+def endsWithChar (r : Rep) (c : UInt8) : Option Bool :=
+  if r.len > 0 then (r.charAt (r.len - 1)).map (· == c) else some false
+
+/-- `operator==(char c)`: `_len==1 && str()[0]==c` -/
+def eqChar (r : Rep) (c : UInt8) : Option Bool :=
+  if r.len == 1 then (r.charAt 0).map (· == c) else some false
+
+/-- `ok()` / `operator bool()`: `_len > 0`;  `operator!()`: `_len == 0` -/
+def ok (r : Rep) : Bool := r.len > 0
+def isEmpty (r : Rep) : Bool := r.len == 0
+
+/-- `isTrue()`: `char c = str()[0]; return length() > 0 && *this != "0" && c != 'N' && c != 'n' && c != 'f' && c != 'F';` -/
+def isTrue (r : Rep) : Option Bool :=
+  (r.charAt 0).map fun c => r.len > 0 && !(r.eqCStr [48]) && c != 78 && c != 110 && c != 102 && c != 70
+
+/-- `contains(const String& / const char*)`: `indexOf(s) >= 0`;  `contains(char)`: `indexOf(c) >= 0` -/
+def contains (r : Rep) (p : Bytes) : Bool := (indexOf r.view p 0).isSome
+def containsChar (r : Rep) (c : UInt8) : Bool := (indexOfChar r.view c 0).isSome
+
 /-- `trim()`: `memmove(s, s+i, j-i+1); s[j-i+1] = 0; _len = j-i+1;` (`J = j+1`) -/
 def trim (r : Rep) : Option Rep :=
   let s := r.toList
